@@ -130,7 +130,7 @@ func main() {
 			"export": 8, "import": 5, "lock": 4, "unlock": 8, "sign": 4, "restart": 4},
 		Scan: true,
 		Mutate: func(r *vh.Rng, ops []wl.Op) []wl.Op {
-			ins := []wl.Op{{Kind: "next", N: 2}, {Kind: "unlock", PC: "cur"}, {Kind: "export", PC: "cur", K: r.Intn(3)}, {Kind: "import-damaged", X: -1}, {Kind: "import-damaged", X: -1}, {Kind: "import-into-pubpass-wallet", X: -1}, {Kind: "chpriv", PC: "cur", NPC: "fresh"}}
+			ins := []wl.Op{{Kind: "next", N: 2}, {Kind: "unlock", PC: "cur"}, {Kind: "export", PC: "cur", K: r.Intn(3)}, {Kind: "import-damaged", X: -1}, {Kind: "import-damaged", X: -1}, {Kind: "import-into-pubpass-wallet", X: -1}, {Kind: "import-with-write-fault", X: -1}, {Kind: "import-with-write-fault", X: -1}, {Kind: "chpriv", PC: "cur", NPC: "fresh"}}
 			if r.Bool() {
 				// several keystores re-keyed while the wallet is locked, then an export -> delete -> import -> export chain
 				ins = append(ins, wl.Op{Kind: "create", PC: "cur", SeedKind: "fresh", Remark: "second"}, wl.Op{Kind: "lock"}, wl.Op{Kind: "chpriv", PC: "cur", NPC: "fresh"},
